@@ -115,3 +115,21 @@ func VerifC04_stream_quick()    { c04Run(10, 3, false) }
 func VerifC04_stream_thorough() { c04Run(12, 4, true) }
 
 func VerifC04_tiny() { c04Run(5, 2, false) }
+
+// C10 (B) — the capture conn never panics, whatever the client sends and however it is cut.
+func VerifC10_capture_nopanic() {
+	n := vRange("n", 0, 8)
+	S := vBytes("S", n)
+	under := &vConn{s: S}
+	c := NewHijackClientHelloConn(under)
+	k := vRange("reads", 0, 3)
+	p := vCatch(func() {
+		for r := 0; r < k; r++ {
+			under.next = vRange(vName("m", r), 0, n-under.pos)
+			c.Read(make([]byte, 9))
+		}
+		c.GetClientHello()
+	})
+	vReach("capture-ran")
+	vAssert(!p, "capture-no-panic")
+}
